@@ -17,6 +17,7 @@ import datetime
 import enum
 import itertools
 import json
+import re
 
 from bitarray import bitarray
 from bitarray.util import ba2int, int2ba
@@ -62,7 +63,9 @@ ASSUMPTIONS = [
     "generated in code-word order and mapped; a wire-contiguous burst over those fields is not claimed",
     "rate 1/2, 3/4, 1 blocks are parsed with from_bits_typed(bits, Confirmed|ConfirmedLastBlock) - the call "
     "Transmission makes once the header announced confirmed data; untyped from_bits has no CRC-9 notion",
-    "'interpreted fields' = the public attributes of the parsed object (recursively), the indicator itself excluded",
+    "'interpreted fields' = the public, non-callable attributes of the parsed object (recursively), the indicator itself "
+    "excluded; attributes whose value contains the complete input handed to the parser (diagnostic copies of the received "
+    "bits / octets) are not field values and are ignored, as are attributes present on only one of the two parses",
     "any exception raised by the parser on a corrupted input counts as a decode error for this property (which "
     "exception types are acceptable is C03's question)",
 ]
@@ -225,6 +228,11 @@ def indicator(pdu, obj):
     return obj.crc_ok
 
 
+def is_true(ind) -> bool:
+    """the indicator says 'ok' (plain bool or numpy bool; anything else is judged by its truth value)"""
+    return ind is True or (ind is not None and not isinstance(ind, str) and bool(ind) is True and ind == True)  # noqa: E712
+
+
 INDICATOR_ATTRS = {"crc_ok", "crc9_ok", "checksum_correct", "fec_parity_ok", "emb_parity_ok"}
 
 
@@ -306,7 +314,10 @@ def dump(o, _depth=0):
         for k in sorted(vars(o)):
             if k.startswith("_") or k in INDICATOR_ATTRS:
                 continue
-            d[k] = dump(getattr(o, k), _depth + 1)
+            v = getattr(o, k)
+            if callable(v) and not isinstance(v, enum.Enum):
+                continue
+            d[k] = dump(v, _depth + 1)
         return d
     return repr(o)
 
@@ -344,7 +355,8 @@ def oracle_rt_small(case):
     st, p = call(L.EmbeddedSignalling.from_bits, bits.copy())
     if not (p.emb_parity_ok is True or p.emb_parity_ok == True):
         raise Fail("parsed_indicator_true", p.emb_parity_ok, True, klass="emb")
-    if dump(p) != dump(o):
+    fields = lambda e: (e.colour_code, e.preemption_and_power_control_indicator, e.link_control_start_stop, e.emb_parity)  # noqa: E731
+    if fields(p) != fields(o):
         raise Fail("parsed_fields_equal", dump(p), dump(o), klass="emb")
 
 
@@ -364,7 +376,7 @@ def oracle_rt_pdu(case):
     st, p = call(parse, case, wire.copy())
     if p is None:
         raise Fail("parsed_not_none", None, "object", klass=k)
-    if indicator(case, p) is not True:
+    if not is_true(indicator(case, p)):
         raise Fail("parsed_indicator_true", indicator(case, p), True, klass=k)
     # the parsed object carries the same check value (it re-serialises to the same check field)
     st, wire2 = call(serialise, case, p)
@@ -415,7 +427,7 @@ def _built(pdu):
         st, o = call(build, pdu)
         st, wire = call(serialise, pdu, o)
         st, p0 = call(parse, pdu, wire.copy())
-        if indicator(pdu, p0) is not True:
+        if not is_true(indicator(pdu, p0)):
             raise Fail("uncorrupted_indicator_true", indicator(pdu, p0), True, klass=pdu["kind"])
         hit = _BUILT[key] = (wire, dump(p0))
     return hit
@@ -427,6 +439,70 @@ def corrupted_wire(case) -> bitarray:
     for p in case["flips"]:
         rx.invert(p)
     return rx
+
+
+def parse_inputs(pdu, bits: bitarray):
+    """Renderings of the complete input handed to the parser (and, for HRNP, of the payload handed on to the HDAP
+    parser): an attribute whose value contains one of them merely echoes the received input (diagnostic copies such as
+    ``source_bits`` / ``source_bytes``) and is not a field value of the PDU."""
+    bit_strings, hex_strings = [bits.to01()], []
+    raw = bits.tobytes()
+    if len(raw) >= 4:
+        hex_strings.append(raw.hex())
+    if pdu["kind"] == "hrnp" and len(raw) > 12 + 4:
+        hex_strings.append(raw[12:].hex())
+        announced = int.from_bytes(raw[8:10], "big")
+        if 12 + 4 < announced < len(raw):
+            hex_strings.append(raw[12:announced].hex())
+        for h in list(hex_strings[1:]):
+            b = bitarray(endian="big")
+            b.frombytes(bytes.fromhex(h))
+            bit_strings.append(b.to01())
+    return {"bits": [b for b in bit_strings if len(b) >= 16], "hex": hex_strings}
+
+
+def _hex_contains(body: str, h: str) -> bool:
+    i = body.find(h)
+    while i >= 0:
+        if i % 2 == 0:
+            return True
+        i = body.find(h, i + 1)
+    return False
+
+
+def is_echo(leaf, inputs) -> bool:
+    if not isinstance(leaf, str):
+        return False
+    if leaf.startswith("bits:"):
+        return any(b in leaf[5:] for b in inputs["bits"])
+    if leaf.startswith("hex:"):
+        return any(_hex_contains(leaf[4:], h) for h in inputs["hex"])
+    low = leaf.lower()
+    return any(b in leaf for b in inputs["bits"]) or any(h in low for h in inputs["hex"])
+
+
+def field_differences(d0, d1, in0, in1, path="", notes=None):
+    """Paths at which two dumps differ in a *field value*.  Not counted: attributes that echo the parser's input on
+    either side (see parse_inputs), and attributes present on one side only (noted)."""
+    out = []
+    if isinstance(d0, dict) and isinstance(d1, dict):
+        for k in sorted(set(d0) | set(d1)):
+            if k not in d0 or k not in d1:
+                if notes is not None:
+                    notes.add(f"attribute {path}.{k} present on one side only: skipped")
+                continue
+            out += field_differences(d0[k], d1[k], in0, in1, f"{path}.{k}", notes)
+        return out
+    if isinstance(d0, list) and isinstance(d1, list) and len(d0) == len(d1):
+        for i, (a, b) in enumerate(zip(d0, d1)):
+            out += field_differences(a, b, in0, in1, f"{path}[{i}]", notes)
+        return out
+    if d0 == d1 or is_echo(d0, in0) or is_echo(d1, in1):
+        return out
+    return [path or "."]
+
+
+FAULT_NOTES = set()  # filled by oracle_fault, flushed into the tally notes by the drivers (diagnostics only)
 
 
 def oracle_fault(case):
@@ -450,10 +526,21 @@ def oracle_fault(case):
     d1 = dump(p1)
     if d1 == d0:
         return "harmless"
-    diff = sorted(k for k in set(d0) | set(d1) if d0.get(k) != d1.get(k)) if isinstance(d0, dict) and isinstance(d1, dict) else None
+    diff = field_differences(d0, d1, parse_inputs(pdu, wire), parse_inputs(pdu, rx), notes=FAULT_NOTES)
+    if not diff:
+        return "harmless"
+
+    def at(d, path):
+        for part in re.findall(r"\.([^.\[]+)|\[(\d+)\]", path):
+            try:
+                d = d[part[0]] if part[0] else d[int(part[1])]
+            except Exception:
+                return None
+        return d
+
     raise Fail(
         "corruption_detected_or_harmless",
-        {"indicator": ind, "changed_fields": {k: [d0.get(k), d1.get(k)] for k in (diff or [])}, "received": rx.to01() if len(rx) <= 200 else rx.tobytes().hex()},
+        {"indicator": ind, "changed_fields": {k: [at(d0, k), at(d1, k)] for k in diff[:12]}, "received": rx.to01() if len(rx) <= 200 else rx.tobytes().hex()},
         "decode error, indicator False, or all interpreted fields equal to the uncorrupted PDU",
         klass=pdu["kind"],
     )
@@ -818,6 +905,11 @@ CAPTURED_HRNP = [
 ]
 
 
+def _members(enum_cls):
+    """enum members in an order that does not depend on the definition order in the library source"""
+    return sorted(enum_cls, key=lambda m: m.name)
+
+
 def hdap_pool(rng, n):
     """Library-serialised HDAP payloads that are fixed points of HDAP.from_bytes / as_bytes (so that HRNP's checksum over
     the re-serialised payload is a statement about the received octets).  Returns (pool, class histogram, excluded)."""
@@ -838,22 +930,22 @@ def hdap_pool(rng, n):
 
     makers = {
         "rcp_zone_channel": lambda: RadioControlProtocol(opcode=RCPOpcode.ZoneAndChannelOperationRequest, raw_payload=rb(5)),
-        "rcp_id_ip_query": lambda: RadioControlProtocol(opcode=RCPOpcode.RadioIDAndRadioIPQueryRequest, target=r.choice(list(RadioIpIdTarget))),
-        "rcp_id_ip_reply": lambda: RadioControlProtocol(opcode=RCPOpcode.RadioIDAndRadioIPQueryReply, target=r.choice(list(RadioIpIdTarget)), raw_value=rb(4), result=r.choice(list(RCPResult))),
+        "rcp_id_ip_query": lambda: RadioControlProtocol(opcode=RCPOpcode.RadioIDAndRadioIPQueryRequest, target=r.choice(_members(RadioIpIdTarget))),
+        "rcp_id_ip_reply": lambda: RadioControlProtocol(opcode=RCPOpcode.RadioIDAndRadioIPQueryReply, target=r.choice(_members(RadioIpIdTarget)), raw_value=rb(4), result=r.choice(_members(RCPResult))),
         "rcp_bcast_msg_cfg": lambda: RadioControlProtocol(opcode=RCPOpcode.BroadcastMessageConfigurationRequest, broadcast_type=r.getrandbits(3)),
         "rcp_bcast_status_cfg": lambda: RadioControlProtocol(opcode=RCPOpcode.BroadcastStatusConfigurationRequest, broadcast_config_raw=b"\x02" + rb(4)),
-        "rcp_call_request": lambda: RadioControlProtocol(opcode=RCPOpcode.CallRequest, call_type=r.choice(list(RCPCallType)), target_id=r.randint(1, 0xFFFFFF)),
-        "rcp_call_reply": lambda: RadioControlProtocol(opcode=RCPOpcode.CallReply, result=r.choice(list(RCPResult))),
+        "rcp_call_request": lambda: RadioControlProtocol(opcode=RCPOpcode.CallRequest, call_type=r.choice(_members(RCPCallType)), target_id=r.randint(1, 0xFFFFFF)),
+        "rcp_call_reply": lambda: RadioControlProtocol(opcode=RCPOpcode.CallReply, result=r.choice(_members(RCPResult))),
         "tmp_private_short": lambda: TextMessageProtocol(opcode=TMPService.PrivateShortData, source_ip=ip(), destination_ip=ip(), short_data=rb(r.randint(0, 24)), is_confirmed=bool(r.getrandbits(1)), is_reliable=bool(r.getrandbits(1)), request_id=r.getrandbits(32)),
         "tmp_group_short": lambda: TextMessageProtocol(opcode=TMPService.GroupShortData, source_ip=ip(), destination_ip=ip(), short_data=rb(r.randint(0, 24)), is_confirmed=bool(r.getrandbits(1)), is_reliable=bool(r.getrandbits(1)), request_id=r.getrandbits(32)),
         "tmp_private_msg": lambda: TextMessageProtocol(opcode=TMPService.SendPrivateMessage, source_ip=ip(), destination_ip=ip(), text_data="".join(r.choice("abcXYZ 019žé") for _ in range(r.randint(0, 12))), is_reliable=bool(r.getrandbits(1)), request_id=r.getrandbits(32)),
         "tmp_group_msg": lambda: TextMessageProtocol(opcode=TMPService.SendGroupMessage, source_ip=ip(), destination_ip=ip(), text_data="".join(r.choice("abcXYZ 019žé") for _ in range(r.randint(0, 12))), is_reliable=bool(r.getrandbits(1)), request_id=r.getrandbits(32)),
-        "tmp_private_ack": lambda: TextMessageProtocol(opcode=r.choice([TMPService.SendPrivateMessageAck, TMPService.PrivateShortDataAck]), source_ip=ip(), destination_ip=ip(), request_id=r.getrandbits(32), result_code=r.choice(list(TMPResultCodes))),
-        "tmp_group_ack": lambda: TextMessageProtocol(opcode=r.choice([TMPService.SendGroupMessageAck, TMPService.GroupShortDataAck]), destination_ip=ip(), request_id=r.getrandbits(32), result_code=r.choice(list(TMPResultCodes))),
+        "tmp_private_ack": lambda: TextMessageProtocol(opcode=r.choice([TMPService.SendPrivateMessageAck, TMPService.PrivateShortDataAck]), source_ip=ip(), destination_ip=ip(), request_id=r.getrandbits(32), result_code=r.choice(_members(TMPResultCodes))),
+        "tmp_group_ack": lambda: TextMessageProtocol(opcode=r.choice([TMPService.SendGroupMessageAck, TMPService.GroupShortDataAck]), destination_ip=ip(), request_id=r.getrandbits(32), result_code=r.choice(_members(TMPResultCodes))),
         "lp_standard_request": lambda: LocationProtocol(opcode=LocationProtocolSpecificService.StandardRequest, request_id=r.getrandbits(32), radio_ip=ip()),
         "rrs_request": lambda: RadioRegistrationService(opcode=r.choice([RRSTypes.RadioRegistrationRequest, RRSTypes.RadioGoingOffline, RRSTypes.RegistrationStatusCheckRequest]), radio_ip=ip(), is_reliable=bool(r.getrandbits(1))),
-        "rrs_answer": lambda: RadioRegistrationService(opcode=RRSTypes.RadioRegistrationAnswer, radio_ip=ip(), result=r.choice(list(RRSResult)), renew_time_seconds=r.randint(1, 0xFFFE)),
-        "rrs_status_answer": lambda: RadioRegistrationService(opcode=RRSTypes.RegistrationStatusCheckAnswer, radio_ip=ip(), radio_state=r.choice(list(RRSRadioState))),
+        "rrs_answer": lambda: RadioRegistrationService(opcode=RRSTypes.RadioRegistrationAnswer, radio_ip=ip(), result=r.choice(_members(RRSResult)), renew_time_seconds=r.randint(1, 0xFFFE)),
+        "rrs_status_answer": lambda: RadioRegistrationService(opcode=RRSTypes.RegistrationStatusCheckAnswer, radio_ip=ip(), radio_state=r.choice(_members(RRSRadioState))),
     }
     pool, hist, excluded = [], {}, {}
     for hx in CAPTURED_HRNP:
@@ -1325,6 +1417,10 @@ def make_fault_driver(group):
                 t.case(sub.name, nontrivial=outcome != "harmless", cls=f"{kind}:{pcl}", n=c)
                 t.cls(sub.name, f"outcome:{kind}:{outcome}", c)
                 t.cls(sub.name, f"pdu_class:{kind}:{pcls}", c)
+            for note in sorted(FAULT_NOTES):
+                if note not in t.notes:
+                    t.notes.append(note)
+            FAULT_NOTES.clear()
             if cases:
                 mid = cases[len(cases) // 2]
                 t.sample(sub.name, {"pdu": mid[1], "flips": mid[2]})
